@@ -266,7 +266,33 @@ def touch_activity(r, c, state):
     c.note += "activity:" + kind + " "
 
 
-TOUCHERS = [touch_index, touch_index, touch_named, touch_counters, touch_globals, touch_activity]
+def touch_holders(r, c, state):
+    """two holders of the same thing: two biases on one variable, a named atom group copied by another variable, an
+    unnamed and a named bias of one type; a deletion follows (gen_session)"""
+    kind = r.choice(["two-biases-one-variable", "shared-named-group", "two-variables-one-bias", "three-biases"])
+    if kind == "two-biases-one-variable":
+        c.biases.append(("harmonic", None, ["zz0"], False))
+        c.biases.append(("harmonic", "second", ["zz0"], False))
+        state["deletable"] = ["DELB:harmonic1", "DELB:second", "DELC:zz0"]
+    elif kind == "shared-named-group":
+        c.cvs.append(("a", [("g", ("n", 2)), (None, ("n", 5))], False))
+        c.cvs.append(("b", [(None, ("o", "g")), (None, ("n", 6))], False))
+        c.biases.append(("harmonic", None, ["a", "b"], False))
+        state["deletable"] = ["DELC:a", "DELC:b", "DELB:harmonic1"]
+    elif kind == "two-variables-one-bias":
+        c.cvs.append(("a", [(None, ("n", 2)), (None, ("n", 5))], False))
+        c.biases.append(("linear", None, ["zz0", "a"], False))
+        c.biases.append(("harmonic", "onlya", ["a"], False))
+        state["deletable"] = ["DELC:a", "DELB:linear1", "DELB:onlya", "DELC:zz0"]
+    else:
+        c.biases.append(("harmonic", None, ["zz0"], False))
+        c.biases.append(("linear", None, ["zz0"], False))
+        c.biases.append(("harmonic", None, ["zz0"], r.random() < 0.5))
+        state["deletable"] = ["DELB:linear1", "DELB:harmonic1", "DELB:harmonic2", "DELB:nosuchbias"]
+    c.note += "holders:" + kind + " "
+
+
+TOUCHERS = [touch_index, touch_index, touch_named, touch_counters, touch_globals, touch_activity, touch_holders]
 
 
 def consumer(r, state):
@@ -307,6 +333,10 @@ def gen_session(r, k):
         for t in r.sample(TOUCHERS, r.choice([1, 1, 1, 2])):
             t(r, c, state)
         cfgs.append(c)
+        if state.get("deletable") and r.random() < 0.7:
+            for d in r.sample(state["deletable"], r.choice([1, 1, 2])):
+                cfgs.append(d)
+            state["deletable"] = None
         if r.random() < 0.08:
             cfgs.append("RESET")
             cfgs.append(BASE)
@@ -318,18 +348,27 @@ def gen_session(r, k):
 
 def model_line(cfgs, variant=None, restore=None):
     extra = (" variant=%s" % variant if variant else "") + (" restore=%s" % restore if restore is not None else "")
-    return "session6 traj0=1 restart0=3%s cfgs=%s" % (extra, "|".join("RESET" if c == "RESET" else c.model() for c in [BASE] + cfgs))
+    return "session6 traj0=1 restart0=3%s cfgs=%s" % (extra, "|".join(c if isinstance(c, str) else c.model() for c in [BASE] + cfgs))
 
 
-def scenario(cfgs, nsteps=3):
+def scenario(cfgs, nsteps=3, via_file=False):
     S = ["natoms %d" % NATOMS, "prefix out", "restartfreq 3", "temperature 300", "new"] + positions(0)
     S += ["config EOF", BASE.text().rstrip("\n"), "EOF", "objs", "globals " + " ".join(NAMED), "step"]
     for c in cfgs:
         if c == "RESET":
             S += ["script cv reset", "objs", "globals " + " ".join(NAMED)]
             continue
+        if isinstance(c, str):
+            S += ["script cv %s %s delete" % ("bias" if c.startswith("DELB:") else "colvar", c[5:]), "objs", "globals " + " ".join(NAMED)]
+            continue
         S += c.putfiles()
-        S += ["config EOF", c.text().rstrip("\n"), "EOF", "objs", "globals " + " ".join(NAMED)]
+        if via_file:
+            # the other entry point for the same text: a configuration FILE (colvarmodule::read_config_file)
+            nfile = sum(1 for l in S if l.startswith("configfile "))
+            S += ["putfile cfg%d.in %s" % (nfile, c.text().rstrip("\n").replace("\n", "\\n")), "configfile cfg%d.in" % nfile,
+                  "objs", "globals " + " ".join(NAMED)]
+        else:
+            S += ["config EOF", c.text().rstrip("\n"), "EOF", "objs", "globals " + " ".join(NAMED)]
     S.append("echo FINAL")
     for kk in range(1, nsteps + 1):
         S += positions(kk) + ["step"]
@@ -360,7 +399,7 @@ def impl_states(out):
         reg = "/".join(x.replace("=", ":", 1) for x in mr.group(1).split())
         named = ",".join(sorted(x.split("=")[0] for x in mn.group(1).split() if x.endswith("=1")))
         res.append("%s cv=%s bias=%s reg=%s named=%s act=%s traj=%s restart=%s crash=0" % (
-            verdict, mo.group(1).rstrip(","), mo.group(2).rstrip(","), reg, named, ",".join(ma.group(1).split()), mg.group(1), mg.group(2)))
+            verdict, mo.group(1).rstrip(","), mo.group(2).rstrip(","), reg, named, ",".join(sorted(ma.group(1).split())), mg.group(1), mg.group(2)))
     return res
 
 
@@ -368,9 +407,10 @@ def norm_model(line):
     """model output -> list of state strings, named groups sorted"""
     out = []
     for s in line.split(" ; "):
-        m = re.search(r" named=(\S*) act=", s)
+        m = re.search(r" named=(\S*) act=(\S*) traj=", s)
         if m:
-            s = s.replace(" named=%s act=" % m.group(1), " named=%s act=" % ",".join(sorted(x for x in m.group(1).split(",") if x)))
+            s = s.replace(" named=%s act=%s traj=" % (m.group(1), m.group(2)), " named=%s act=%s traj=" % (
+                ",".join(sorted(x for x in m.group(1).split(",") if x)), ",".join(sorted(x for x in m.group(2).split(",") if x))))
         out.append(s)
     return out
 
